@@ -386,6 +386,10 @@ func negOp(op token.Token) token.Token {
 
 // factCons adds the integer content of a branch fact.
 func (s *scope) factCons(pr *proof, f Fact) {
+	if phi, isPhi := f.Cond.(*ssa.Phi); isPhi && isBoolType(phi.Type()) {
+		s.flagSplit(pr, f, phi)
+		return
+	}
 	b, ok := f.Cond.(*ssa.BinOp)
 	if !ok {
 		return
@@ -400,6 +404,34 @@ func (s *scope) factCons(pr *proof, f Fact) {
 	s.cmpCons(pr, op, b.X, b.Y, fmt.Sprintf("%s%p", s.prefix, b))
 }
 
+// flagSplit: a merged boolean (x := a && b; if x ...; the result of an inlined predicate) is
+// known to have the value f.Pol: one case per way it can have got that value.
+func (s *scope) flagSplit(pr *proof, f Fact, phi *ssa.Phi) {
+	key := fmt.Sprintf("flag:%s%p/%v", s.prefix, phi, f.Pol)
+	if pr.seenSp[key] {
+		return
+	}
+	ff := s.b.p.Facts(s.fn)
+	alts := ff.Alternatives([]Fact{f}, 0)
+	if len(alts) == 0 || (len(alts) == 1 && len(alts[0]) == 1 && alts[0][0] == f) || !pr.begin(key) {
+		return
+	}
+	var cases [][]Cons
+	var nest [][]int
+	for _, alt := range alts {
+		sub := pr.child()
+		for _, g := range alt {
+			if g == f {
+				continue
+			}
+			s.factCons(sub, g)
+		}
+		cs, ns := pr.absorb(sub)
+		cases, nest = append(cases, cs), append(nest, ns)
+	}
+	pr.pushSplit(key, cases, nest)
+}
+
 // blockFacts adds all integer facts that hold at block blk of the scope's
 // function.
 func (s *scope) blockFacts(pr *proof, blk *ssa.BasicBlock) {
@@ -407,27 +439,6 @@ func (s *scope) blockFacts(pr *proof, blk *ssa.BasicBlock) {
 	// value semantics: facts about earlier events on re-evaluated operands are left out (NCv)
 	for _, f := range ff.NCv(blk) {
 		s.factCons(pr, f)
-		// a merged boolean (x := a && b; switch { case a && b: ... }): one case per way it can
-		// have got its value
-		if phi, isPhi := f.Cond.(*ssa.Phi); isPhi && isBoolType(phi.Type()) {
-			key := fmt.Sprintf("flag:%s%p/%v", s.prefix, phi, f.Pol)
-			if !pr.seenSp[key] {
-				alts := ff.Alternatives([]Fact{f}, 0)
-				if len(alts) > 0 && !(len(alts) == 1 && len(alts[0]) == 1 && alts[0][0] == f) && pr.begin(key) {
-					var cases [][]Cons
-					var nest [][]int
-					for _, alt := range alts {
-						sub := pr.child()
-						for _, g := range alt {
-							s.factCons(sub, g)
-						}
-						cs, ns := pr.absorb(sub)
-						cases, nest = append(cases, cs), append(nest, ns)
-					}
-					pr.pushSplit(key, cases, nest)
-				}
-			}
-		}
 		// a module predicate: isValid(x) returned true / false — the facts of the callee's
 		// returns that can yield that value
 		if cl, isCall := unspill(f.Cond).(*ssa.Call); isCall && isBoolType(cl.Type()) {
